@@ -1,5 +1,7 @@
 #include "entity_manager.hpp"
 
+#include <cstring>
+
 #include <mustache/utils/profiler.hpp>
 
 #include <mustache/ecs/world.hpp>
@@ -304,7 +306,20 @@ void EntityManager::applyCommandPack(TemporalStorage& storage, size_t begin, siz
         final_mask = archetype->componentMask();
         shared = archetype->sharedComponentInfo();
     }
+    const auto closed = [this](const ComponentIdMask& mask) {
+        return mask.merge(getExtraComponents(mask));
+    };
+    // The commands are folded into one move, but with the meaning they have when applied one by one:
+    // `final_mask` is the component set after each command, kept closed under the declared dependencies.
+    final_mask = closed(final_mask);
     initial_mask = final_mask;
+    ComponentIdMask replaced; // removed (or re-assigned) at some point of the pack: an instance carried over is stale
+    std::vector<std::pair<ComponentId, size_t> > value_source; // component -> assign command that supplies its value
+    const auto forget = [&value_source](ComponentId id) {
+        for (auto it = value_source.begin(); it != value_source.end();) {
+            it = it->first == id ? value_source.erase(it) : it + 1;
+        }
+    };
 
     for (size_t i = create ? begin + 1 : begin; i < end; ++i) {
         const auto& command = storage.actions_[i];
@@ -324,61 +339,81 @@ void EntityManager::applyCommandPack(TemporalStorage& storage, size_t begin, siz
             destroy(command.entity);
             break;
         case TemporalStorage::Action::kRemoveComponent:
-            final_mask.set(command.component_id, false);
+            if (final_mask.has(command.component_id)) {
+                auto next = final_mask;
+                next.set(command.component_id, false);
+                next = closed(next);
+                if (!next.has(command.component_id)) { // otherwise: dependent of a present master, no effect
+                    final_mask = next;
+                    replaced.set(command.component_id, true);
+                    forget(command.component_id);
+                }
+            }
             break;
         case TemporalStorage::Action::kAssignComponent:
-            final_mask.set(command.component_id, true);
+            forget(command.component_id);
+            value_source.emplace_back(command.component_id, i);
+            if (final_mask.has(command.component_id)) {
+                replaced.set(command.component_id, true);
+            } else {
+                final_mask.set(command.component_id, true);
+                final_mask = closed(final_mask);
+            }
             break;
         default:
             break;
         }
     }
 
+    ComponentIdMask supplied; // components whose value comes out of the buffer: nothing to construct for them
+    for (const auto& source : value_source) {
+        supplied.set(source.first, true);
+    }
+
     Archetype& archetype = getArchetype(final_mask, shared);
     if (create) {
-        // construct everything the commands do not supply a value for (the dependency closure included)
-        archetype.insert(entity, final_mask.intersection(initial_mask.inverse()));
+        archetype.insert(entity, supplied);
     }
     else if (initial_mask != final_mask) {
         const auto location = locations_[entity.id()];
         auto& prev_archetype = getArchetype(location.archetype);
-        if (&archetype != &prev_archetype) { // e.g. removal of a dependent whose master stays: nothing to move
-            archetype.externalMove(entity, prev_archetype, location.index, final_mask);
+        if (&archetype != &prev_archetype) {
+            archetype.externalMove(entity, prev_archetype, location.index, supplied);
         }
     }
 
     auto view = archetype.getElementView(locations_[entity.id()].index);
-    for (size_t i = begin; i < end; ++i) {
-        const auto& command = storage.actions_[i];
-        if (command.action != TemporalStorage::Action::kAssignComponent) {
-            continue;
+    // a component that was removed and is present again: the instance that was carried over is not its own
+    final_mask.intersection(replaced).intersection(initial_mask).forEachItem([&](ComponentId id) {
+        auto dest = view.getData(archetype.getComponentIndex(id));
+        if (dest == nullptr || (create && supplied.has(id))) { // insert() left a supplied component unconstructed
+            return;
         }
-        // the last command on a component decides: an assignment followed by a removal or by another
-        // assignment of the same component is dropped (its temporary is destroyed with the buffer)
-        bool superseded = false;
-        for (size_t j = i + 1; j < end && !superseded; ++j) {
-            const auto& next = storage.actions_[j];
-            superseded = (next.action == TemporalStorage::Action::kRemoveComponent ||
-                          next.action == TemporalStorage::Action::kAssignComponent) &&
-                         next.component_id == command.component_id;
+        const auto& info = ComponentFactory::instance().componentInfo(id);
+        if (info.functions.before_remove) {
+            info.functions.before_remove(dest, entity, world_);
         }
-        if (superseded) {
-            continue;
+        if (info.functions.destroy) {
+            info.functions.destroy(dest);
         }
+        if (!supplied.has(id)) {
+            if (info.functions.create) {
+                info.functions.create(dest, entity, world_);
+            } else if (!info.default_value.empty()) {
+                memcpy(dest, info.default_value.data(), info.default_value.size());
+            }
+            if (info.functions.after_assign) {
+                info.functions.after_assign(dest, entity, world_);
+            }
+        }
+    });
+    for (const auto& source : value_source) {
+        const auto& command = storage.actions_[source.second];
         auto dest = view.getData(archetype.getComponentIndex(command.component_id));
         if (dest == nullptr) {
             continue;
         }
         const auto& component_functions = ComponentFactory::instance().componentInfo(command.component_id).functions;
-        if (initial_mask.has(command.component_id)) {
-            // removed and assigned again inside this pack: the previous instance is still in place
-            if (component_functions.before_remove) {
-                component_functions.before_remove(dest, command.entity, world_);
-            }
-            if (component_functions.destroy) {
-                component_functions.destroy(dest);
-            }
-        }
         component_functions.move_constructor(dest, command.ptr);
         if (component_functions.after_assign) {
             component_functions.after_assign(dest, command.entity, world_);
